@@ -208,18 +208,12 @@ func readTar(gzr io.Reader) (bool, error) {
 }
 
 func openFile(header *tar.Header) (*os.File, error) {
-	f, err := os.OpenFile(header.Name, os.O_WRONLY|os.O_TRUNC|os.O_CREATE, os.FileMode(header.Mode))
-	if err != nil {
-		if os.IsPermission(err) {
-			// The file might already exist and be ro. If so, remove it.
-			if err := fs.RemoveAll(header.Name); err != nil {
-				log.Debug("failed to remove existing file when restoring from the cache: %w", err)
-			}
-			return os.OpenFile(header.Name, os.O_WRONLY|os.O_TRUNC|os.O_CREATE, os.FileMode(header.Mode))
-		}
-		return nil, err
+	// The file might already exist from a previous version of the target. Never write through it: it can be
+	// read-only, a hard link shared with an entry of the directory cache, or a symlink to somewhere else.
+	if err := fs.RemoveAll(header.Name); err != nil {
+		log.Debug("failed to remove existing file when restoring from the cache: %s", err)
 	}
-	return f, nil
+	return os.OpenFile(header.Name, os.O_WRONLY|os.O_TRUNC|os.O_CREATE, os.FileMode(header.Mode))
 }
 
 func (cache *httpCache) Clean(*core.BuildTarget) {
